@@ -18,7 +18,19 @@ inductive V where
   | mat (rows cols : Nat) (els : List Int)
   | blob (text : String)                -- sets, strings, records …: never combined, only bound
   | tuple (cells : List Nat)         -- element cells
+  | record (fields : List (String × Int))                 -- numeric fields
+  | table (rows : Nat) (cols : List (String × List Int))  -- numeric columns of `rows` entries
 deriving DecidableEq, Repr
+
+/-- the arithmetic of `+=`, `-=`, `*=` -/
+inductive AOp where
+  | add | sub | mul
+deriving DecidableEq, Repr
+
+def AOp.ap : AOp → Int → Int → Int
+  | .add, a, b => a + b
+  | .sub, a, b => a - b
+  | .mul, a, b => a * b
 
 inductive Expr where
   | lit (v : V)          -- literal (tuple literals carry their element values in `tupleLit`)
@@ -32,7 +44,8 @@ inductive Stmt where
   | define (mutable : Bool) (n : Name) (e : Expr)
   | assign (n : Name) (e : Expr)
   | setIdx (n : Name) (ix : List Nat) (v : Int)     -- n[ix] = v (1-based linear indices)
-  | addAssign (n : Name) (e : Expr)                 -- n += e
+  | addAssign (op : AOp) (n : Name) (e : Expr)      -- n += e, n -= e, n *= e
+  | setField (n : Name) (f : String) (e : Expr)     -- n.f = e (record field, table column)
   | destructure (names : List Name) (t : Name)      -- (a, b) := t
 deriving DecidableEq, Repr
 
@@ -116,15 +129,27 @@ def compatible (old new : V) : Bool :=
   | .blob a, .blob b => scalarBlob a && scalarBlob b && blobKind a == blobKind b   -- string ← string, bool ← bool
   | _, _ => false
 
-def addV (old new : V) : Option V :=
+def addV (op : AOp) (old new : V) : Option V :=
   match old, new with
-  | .num a, .num b => some (.num (a + b))
-  | .mat r c els, .num b => some (.mat r c (els.map (· + b)))
+  | .num a, .num b => some (.num (op.ap a b))
+  | .mat r c els, .num b => some (.mat r c (els.map (op.ap · b)))
   | .mat r c els, .mat r' c' els' =>
-    if r = r' ∧ c = c' then some (.mat r c (List.zipWith (· + ·) els els'))
+    if r = r' ∧ c = c' then some (.mat r c (List.zipWith op.ap els els'))
     else if formTag r c == formTag r' c' then
       -- C05-D4 (= C04-D5): no shape check; the common prefix is updated
-      some (.mat r c (List.zipWith (· + ·) els els' ++ els.drop els'.length))
+      some (.mat r c (List.zipWith op.ap els els' ++ els.drop els'.length))
+    else none
+  | _, _ => none
+
+/-- `n.f = v`: a numeric field of a record takes a number, a column of a table takes a column
+    vector of exactly the table's length -/
+def setFieldV (f : String) (old new : V) : Option V :=
+  match old, new with
+  | .record fs, .num x =>
+    if fs.any (fun p => p.1 == f) then some (.record (fs.map (fun p => if p.1 == f then (p.1, x) else p))) else none
+  | .table rows cols, .mat r c els =>
+    if r = rows ∧ c = 1 ∧ 2 ≤ rows ∧ els.length = rows ∧ cols.any (fun p => p.1 == f) then
+      some (.table rows (cols.map (fun p => if p.1 == f then (p.1, els) else p)))
     else none
   | _, _ => none
 
@@ -147,6 +172,13 @@ def bindAll (s : Store) : List Name → List Nat → Store × Except SErr Unit
   | n :: ns, c :: cs =>
     if (s.lookup n).isSome then (s, .error .redefine)
     else bindAll { s with syms := s.syms ++ [(n, c, true)] } ns cs      -- destructured names are mutable (C05-D2)
+
+/-- the source of a field assignment: a bare variable is not accepted by the field setters
+    (`x.f = y` is rejected), anything else is evaluated -/
+def fieldSource (s : Store) (e : Expr) : Except SErr V :=
+  match e with
+  | .var _ => .error .kind
+  | _ => evalValue s e
 
 /-- one statement; the store is returned on the error path too -/
 def exec (s : Store) (st : Stmt) : Store × Except SErr Unit :=
@@ -175,7 +207,7 @@ def exec (s : Store) (st : Stmt) : Store × Except SErr Unit :=
         let res := setMany els v ix
         (s.write c (.mat r cc res.1), if res.2 then .ok () else .error .index)
       | _ => (s, .error .kind)
-  | .addAssign n e =>
+  | .addAssign op n e =>
     match evalValue s e with
     | .error err => (s, .error err)
     | .ok v =>
@@ -183,7 +215,19 @@ def exec (s : Store) (st : Stmt) : Store × Except SErr Unit :=
       | .error err => (s, .error err)
       | .ok c =>
         match s.read c with
-        | some old => (match addV old v with
+        | some old => (match addV op old v with
+            | some nv => (s.write c nv, .ok ())
+            | none => (s, .error .kind))
+        | none => (s, .error .eval)
+  | .setField n f e =>
+    match fieldSource s e with
+    | .error err => (s, .error err)
+    | .ok v =>
+      match mutableCell s n with
+      | .error err => (s, .error err)
+      | .ok c =>
+        match s.read c with
+        | some old => (match setFieldV f old v with
             | some nv => (s.write c nv, .ok ())
             | none => (s, .error .kind))
         | none => (s, .error .eval)
